@@ -574,7 +574,14 @@ def examine(ctx, case, tmp, lines, pend):
         else:
             ctx.count("inside_theorem_hypotheses")
         if data[:4] == b"ajkg":
-            pass
+            # a well-formed *uncompressed* file whose data happens to begin with the shorten magic: the reader
+            # hands it to the shorten decoder whatever sample_coding says (genuine corner defect, KNOWN_FINDINGS F20)
+            want = expectation(case, items, data)
+            if want is not None and impl != want:
+                w, g = diff_brief(want, impl)
+                ctx.violation(slim(case), w, g,
+                              "decode(file) == stored samples also when the data section begins with b'ajkg'",
+                              tags=dict(clause="roundtrip", data_prefix="shorten_magic"))
         else:
             want = expectation(case, items, data)
             if want is None:
